@@ -77,6 +77,17 @@ CHECKS = {
         "thorough": {"rapid_checks": 60000, "timeout": 3400, "shards": 16,
                      "fuzz": [{"target": "FuzzParse", "time": "300s", "hard_timeout": 1200}]},
     },
+    "C07": {
+        "pkg": "./checks/c07",
+        "level": "exploration",
+        "assumptions": [
+            "positions are (0-based line, byte column) as templ's own convention; positions inside a multi-byte character are not addressable and not checked",
+            "the map is checked against the generator's raw output (what the language server uses), not the gofmt-ed file",
+            "whitespace-only expressions are skipped by the generator by design; script template names/parameters become string constants and are not mapped",
+        ],
+        "quick": {"rapid_checks": 6000, "timeout": 900},
+        "thorough": {"rapid_checks": 80000, "timeout": 3400, "shards": 16},
+    },
     "C11": {
         "pkg": "./checks/c11",
         "level": "fault_enumeration",
